@@ -23,7 +23,7 @@ from lib.terms import g_term, g_list, g_pair, g_nat
 
 ID = 'C02'
 IMPORTS = ['Unify.Unify', 'Unify.RunUnify', 'Unify.RunUnifySched', 'Unify.SchedSpec']
-THEOREMS = ['C02_unify_sound', 'C02_unify_complete_mgu', 'C02_unify_most_general', 'C02_unify_fail_no_unifier', 'C02_unify_sym_ok', 'C02_unify_sym_fail', 'C02_unify_functor_arity', 'C02_unify_fuel_irrelevant', 'C02_unify_equivariant', 'C02_unify_increment', 'C02_unify_yields_at_most_once', 'C02_generator_is_unify',
+THEOREMS = ['C02_unify_constant_recoding', 'C02_unify_sound', 'C02_unify_complete_mgu', 'C02_unify_most_general', 'C02_unify_fail_no_unifier', 'C02_unify_sym_ok', 'C02_unify_sym_fail', 'C02_unify_functor_arity', 'C02_unify_fuel_irrelevant', 'C02_unify_equivariant', 'C02_unify_increment', 'C02_unify_yields_at_most_once', 'C02_generator_is_unify',
             'C02_late_start_is_unify', 'C02_late_start_mgu', 'C02_late_start_fail', 'C02_late_start_snapshot_mgu', 'C02_late_start_snapshot_fail',
             'C02_late_start_sym', 'C02_late_drive_restores', 'C02_stack_mgu', 'C02_stack_fail_no_unifier', 'C02_run_events_is_generator_model',
             'C02_sched_refines', 'C02_srun_mgu', 'C02_run_events_spec']
